@@ -64,7 +64,8 @@ def main(pid):
             o = obs[ix]
             diff = [x for x in o["markup_nonref"] if x not in o["plain_nonref"]][:2] + [x for x in o["plain_nonref"] if x not in o["markup_nonref"]][:2]
             vd.violation(cl, {"markup": o["markup"], "steps": o["steps"], "refs": o["refs"][:6], "nonref_difference": [d[:400] for d in diff]},
-                         {"clause": cl, "steps": "+".join(o["steps"])})
+                         {"clause": cl, "steps": "+".join(o["steps"])},
+                         judge=vlib.J("Trace_Markup", "Trace_Markup.cfg", o), rerun=vlib.R("drv_extract", "run_markup", items[ix]))
     ev.sample({"markup": obs[0]["markup"], "refs": [(r["mode"], r["text"]) for r in obs[0]["refs"]]})
     ev.cov["traces_validated_against_impl"] = len(obs)
     ev.cov["evaluations"] = len(obs)
